@@ -40,6 +40,13 @@ for d in sorted(glob.glob(os.path.join(VERIF, "seeded", "C*_*"))):
         rc0, _ = sh("/venv/bin/python MUTANT/%s" % meta["demo"], cwd=wt, env=env, timeout=900)
         rc, o = sh("git apply %s/patch.diff" % d, cwd=wt)
         if rc != 0:
+            # the tree moved on (hooks, fixes): try with fuzz and refresh patch.diff if that works
+            rc, o = sh("patch -p1 -s --fuzz=3 --no-backup-if-mismatch < %s/patch.diff" % d, cwd=wt)
+            sh("find . -name '*.rej' -delete; find . -name '*.orig' -delete", cwd=wt)
+            if rc == 0:
+                _, newdiff = sh("git diff -- src", cwd=wt)
+                open(os.path.join(d, "patch.diff"), "w").write(newdiff)
+        if rc != 0:
             meta["ran"]["note"] = "patch.diff no longer applies to HEAD"
             print(name, "patch does not apply", flush=True)
             continue
